@@ -520,3 +520,43 @@ def ob_idmap(ctx, res):
             res.fail("idmap/%s/order" % name, f2, "channels must be set up after the id is allocated")
             continue
         res.ok(gid[0], "%s: unknown chromosome -> Err(InvalidChromosome) before get_id / channel setup" % name)
+
+
+def ob_process_data_positions(ctx, res):
+    """C01-F6: the positional hand-over structs (InternalProcessData & co.) are built and destructured with the same meaning per position"""
+    structs = {"InternalProcessData": "write_vals", "NoZoomsInternalProcessData": "write_vals_no_zoom", "ZoomsInternalProcessData": "write_zoom_vals"}
+    for sname, builder in structs.items():
+        bf = ctx.ast.fn(W, builder)
+        cons = [c for c in walk_no_nested_fn(bf.body) if c.k == "call" and up(c["func"]).split("::")[-1] == sname]
+        if len(cons) != 1:
+            res.fail("processData/%s/constructor" % sname, bf, "expected one construction of %s in %s" % (sname, builder))
+            continue
+        built = []
+        for a in cons[0]["args"]:
+            t = up(strip(a))
+            t = re.sub(r"\.clone\(\)$", "", t)
+            t = re.sub(r"\.handle\(\)$", "", t)
+            t = {"runtime": "runtime", "options": "options"}.get(t, t)
+            built.append(t)
+        n = 0
+        for file in (WW, BW):
+            for fn in ctx.ast.fns_in(file):
+                if fn.name != "create" or fn.body is None:
+                    continue
+                pats = [x for x in walk_no_nested_fn(fn.body) if x.k == "let" and x["pat"].k == "p_tstruct" and x["pat"]["path"].split("::")[-1] == sname]
+                for p in pats:
+                    n += 1
+                    names = [up(e) for e in p["pat"]["elems"]]
+                    if len(names) != len(built):
+                        res.fail("processData/%s/arity" % sname, p, "%s built with %d fields, destructured into %d" % (sname, len(built), len(names)))
+                        continue
+                    alias = {"length": {"length"}, "chrom": {"chrom"}, "chrom_id": {"chrom_id"}, "ftx": {"ftx"}, "zooms_channels": {"zooms_channels"},
+                             "zoom_infos": {"temp_zoom_items", "zoom_infos"}, "options": {"options"}, "runtime": {"runtime"}}
+                    bad = [(b, nm) for b, nm in zip(built, names) if nm not in alias.get(b, {b})]
+                    if bad:
+                        res.fail("processData/%s/%s" % (sname, fn.qual.split("::")[-2]), p, "%s is built as (%s) but destructured as (%s): positions %s disagree" % (
+                            sname, ", ".join(built), ", ".join(names), bad))
+                    else:
+                        res.ok(p, "%s: (%s) built in %s and destructured position by position" % (sname, ", ".join(built), builder))
+        if n < 2:
+            res.fail("processData/%s/floor" % sname, bf, "expected the bigWig and bigBed processors to destructure %s" % sname)
